@@ -174,14 +174,16 @@ class XmlHex(XmlDec):
 
     def enc(self, p, r):
         up = r.random() < 0.5
-        return b"".join((b"&#x%02X;" if up else b"&#x%02x;") % c for c in p)
+        marker = r.choice([b"x", b"x", b"X", None])  # the reference pattern is case-insensitive: &#X41; is a reference too
+        return b"".join(b"&#" + (marker or r.choice([b"x", b"X"])) + (b"%02X" if up else b"%02x") % c + b";" for c in p)
 
 
 class XmlMixed(XmlDec):
     name = "xmlmix"
 
     def enc(self, p, r):
-        return b"".join((b"&#x%02x;" % c) if r.random() < 0.5 else (b"&#%d;" % c) for c in p)
+        x = r.choice([b"x", b"x", b"X"])
+        return b"".join((b"&#" + x + b"%02x;" % c) if r.random() < 0.5 else (b"&#%d;" % c) for c in p)
 
 
 class Unescape(Enc):
@@ -229,7 +231,7 @@ class Reverse(Enc):
 
     def enc(self, p, r):
         q = quote_for(r, p)
-        return r.choice([b"reverse(", b"reversed(", b"Reverse(", b"REVERSED( "]) + q + p[::-1] + q + b")"
+        return r.choice([b"reverse(", b"reversed(", b"Reverse(", b"REVERSED( "]) + pad(r) + q + p[::-1] + q + pad(r) + b")"
 
 
 class StrReverse(Reverse):
@@ -237,7 +239,12 @@ class StrReverse(Reverse):
 
     def enc(self, p, r):
         q = quote_for(r, p)
-        return r.choice([b"StrReverse(", b"strreverse( ", b"STRREVERSE("]) + q + p[::-1] + q + r.choice([b")", b" )"])
+        return r.choice([b"StrReverse(", b"strreverse( ", b"STRREVERSE("]) + pad(r) + q + p[::-1] + q + pad(r) + r.choice([b")", b" )"])
+
+
+def pad(r) -> bytes:
+    """Optional padding where the documented expression syntax allows white space: any white space character."""
+    return r.choice([b""] * 6 + [b" ", b"\t", b"\n", b"\r\n", b"\r", b"\x0b", b"\x0c", b"  ", b" \n "])
 
 
 def _marked(p, r):
@@ -270,15 +277,15 @@ class Replace(Enc):
             return None
         q1, q2, q3 = quote_for(r, p), r.choice([b'"', b"'"]), r.choice([b'"', b"'"])
         if self.form == "js":
-            return q1 + x + q1 + b".replace(" + q2 + m + q2 + r.choice([b",", b", "]) + q3 + q3 + b")"
+            return q1 + x + q1 + b".replace(" + pad(r) + q2 + m + q2 + pad(r) + r.choice([b",", b", "]) + pad(r) + q3 + q3 + pad(r) + b")"
         if self.form == "vba":
-            return r.choice([b"Replace(", b"replace("]) + q1 + x + q1 + b", " + q2 + m + q2 + b"," + q3 + q3 + b")"
+            return r.choice([b"Replace(", b"replace("]) + pad(r) + q1 + x + q1 + pad(r) + b", " + q2 + m + q2 + pad(r) + b"," + pad(r) + q3 + q3 + pad(r) + b")"
         if self.form == "ps":
-            return q1 + x + q1 + r.choice([b" -replace ", b"-replace", b" -Replace "]) + q2 + m + q2 + b"," + q3 + q3
+            return q1 + x + q1 + r.choice([b" -replace ", b"-replace", b" -Replace ", b"\n-replace\t"]) + q2 + m + q2 + pad(r) + b"," + pad(r) + q3 + q3
         # js regex form: marker must be metacharacter free
         if set(m) & set(b"/[](){}\\.+*?^$,"):
             return None
-        return q1 + x + q1 + b".replace(/" + m + b"/" + r.choice([b"", b"g", b"gi", b"gim"]) + b"," + q3 + q3 + b")"
+        return q1 + x + q1 + b".replace(/" + m + b"/" + r.choice([b"", b"g", b"gi", b"gim"]) + pad(r) + b"," + pad(r) + q3 + q3 + pad(r) + b")"
 
 
 class VbaReplace(Replace):
@@ -331,10 +338,20 @@ class PsBytes(Enc):
         return 501 <= len(p) <= 1500
 
     def enc(self, p, r):
-        hexy = r.random() < 0.4
-        sep = r.choice([b",", b", "])
+        style = r.choice(["dec", "dec", "hex", "hex", "mixed", "padded"])
+        sep = r.choice([b",", b", ", b",", b", ", b",\n", b",\t", b",\r\n  ", b",  "])
         pre = r.choice([b"0x", b"0x", b"0X"])
-        return sep.join((pre + b"%02x" % c) if hexy else (b"%d" % c) for c in p)
+
+        def one(c):
+            st = style if style != "mixed" else r.choice(["dec", "hex", "padded", "HEX"])
+            if st == "hex":
+                return pre + b"%02x" % c
+            if st == "HEX":
+                return r.choice([b"0x", b"0X"]) + b"%02X" % c
+            if st == "padded" and r.random() < 0.5:
+                return b"%03d" % c  # up to three digits: 065, 007, 000
+            return b"%d" % c
+        return sep.join(one(c) for c in p)
 
 
 ENCODERS = [B64Bare(), Atob(), B64Decode(), FromB64(), HexLower(), HexUpper(), FromHex(), Utf16(), XmlDec(), XmlHex(),
